@@ -155,7 +155,7 @@ class Pervaporation:
             else:
                 permeate_composition = permeate_composition_new
 
-        return self.get_partial_fluxes_from_permeate_composition(
+        partial_fluxes = self.get_partial_fluxes_from_permeate_composition(
             first_component_permeance=first_component_permeance,
             second_component_permeance=second_component_permeance,
             permeate_composition=permeate_composition,
@@ -165,6 +165,11 @@ class Pervaporation:
             permeate_pressure=permeate_pressure,
             calculation_type=calculation_type,
         )
+        if not (numpy.isfinite(partial_fluxes[0]) and numpy.isfinite(partial_fluxes[1])):
+            raise ValueError(
+                "Partial fluxes are not defined in the stated conditions range"
+            )
+        return partial_fluxes
 
     def calculate_permeate_composition(
         self,
